@@ -212,11 +212,14 @@ MkBin(f, rx, ry, rg, u, a, n, csd) ==
     IN [f |-> f, xx |-> xx, yy |-> yy, xy |-> IF csd THEN CScale(mag, u) ELSE <<xx, <<0, 1>>>>,
         s2 |-> <<1, 1>>, S2 |-> a.S2, S12 |-> a.S12, navg |-> n, m2 |-> a.m2]
 
+(* the bin's frequency does not enter any definition: DC and Nyquist bins (compute_single_bin, custom schedulers) obey the same table *)
+GridFreqs(fs, rg) == IF rg \in {<<1, 2>>, <<1, 1>>} THEN {<<3, 2>>, <<0, 1>>, RDiv(fs, <<2, 1>>)} ELSE {<<3, 2>>}
 GridInit ==
     \E csd \in BOOLEAN : \E a \in Aux : \E n \in {1, 2, 5, 64} : \E rx \in RootsXX :
-      IF csd THEN \E ry \in RootsYY : \E rg \in RootsG2 : \E u \in Units :
-             res = [iscsd |-> TRUE, fs |-> a.fs, bins |-> <<MkBin(<<3, 2>>, rx, ry, rg, u, a, n, TRUE)>>]
-      ELSE res = [iscsd |-> FALSE, fs |-> a.fs, bins |-> <<MkBin(<<3, 2>>, rx, <<1, 1>>, <<1, 1>>, <<<<1, 1>>, <<0, 1>>>>, a, n, FALSE)>>]
+      IF csd THEN \E ry \in RootsYY : \E rg \in RootsG2 : \E u \in Units : \E f \in GridFreqs(a.fs, rg) :
+             res = [iscsd |-> TRUE, fs |-> a.fs, bins |-> <<MkBin(f, rx, ry, rg, u, a, n, TRUE)>>]
+      ELSE \E f \in GridFreqs(a.fs, <<1, 1>>) :
+             res = [iscsd |-> FALSE, fs |-> a.fs, bins |-> <<MkBin(f, rx, <<1, 1>>, <<1, 1>>, <<<<1, 1>>, <<0, 1>>>>, a, n, FALSE)>>]
 
 (* a few three-bin results for histories, interpolation and export *)
 A1 == CHOOSE a \in Aux : a.fs = <<2, 1>>
@@ -224,6 +227,8 @@ I_ == <<<<0, 1>>, <<1, 1>>>>
 U1 == <<<<0, 1>>, <<-1, 1>>>>
 U2 == <<<<3, 5>>, <<4, 5>>>>
 U3 == <<<<-5, 13>>, <<12, 13>>>>
+U4 == <<<<-12, 13>>, <<5, 13>>>>          \* phases near +-180 degrees: the unwrapped phase must follow the wrap
+U5 == <<<<-12, 13>>, <<-5, 13>>>>
 HistFreqs == <<<<1, 2>>, <<5, 4>>, <<3, 1>>>>
 CB(j, rx, ry, rg, u, n) == MkBin(HistFreqs[j], rx, ry, rg, u, A1, n, TRUE)
 AB(j, rx, n) == MkBin(HistFreqs[j], rx, <<1, 1>>, <<1, 1>>, <<<<1, 1>>, <<0, 1>>>>, A1, n, FALSE)
@@ -232,6 +237,7 @@ HistResults == <<
     [iscsd |-> TRUE,  fs |-> <<2, 1>>, bins |-> <<CB(1, <<3, 1>>, <<1, 1>>, <<0, 1>>, U2, 5), CB(2, <<1, 1>>, <<1, 1>>, <<7, 8>>, U3, 2), CB(3, <<1, 1>>, <<2, 1>>, <<1, 4>>, U1, 64)>>],
     [iscsd |-> FALSE, fs |-> <<2, 1>>, bins |-> <<AB(1, <<1, 2>>, 1), AB(2, <<3, 1>>, 5), AB(3, <<1, 1>>, 5)>>],
     [iscsd |-> TRUE,  fs |-> <<2, 1>>, bins |-> <<CB(1, <<1, 1>>, <<1, 1>>, <<5, 6>>, U3, 5)>>],
+    [iscsd |-> TRUE,  fs |-> <<2, 1>>, bins |-> <<CB(1, <<1, 1>>, <<1, 1>>, <<3, 4>>, U4, 5), CB(2, <<1, 1>>, <<2, 1>>, <<1, 2>>, U5, 5), CB(3, <<3, 1>>, <<1, 1>>, <<7, 8>>, U4, 2)>>],
     [iscsd |-> FALSE, fs |-> <<2, 1>>, bins |-> <<AB(1, <<3, 1>>, 2)>>] >>
 HistInit == \E i \in 1..Len(HistResults) : rid = i /\ res = HistResults[i]
 
